@@ -194,7 +194,20 @@ func (g *Gen) genCompLine(p *ProgDef) (string, []string) {
 	cur := path[len(path)-1]
 	vis := visibleOpts(path, p)
 	last := ""
+	// `<commands...> help <TAB>`: the topics of the help command of the level reached
+	helpTopic := p.HelpName != "" && g.pct(12)
+	if helpTopic {
+		clean = append(clean, p.HelpName)
+	}
 	switch r := g.r.Intn(100); {
+	case helpTopic:
+		if len(cur.Cmds) > 0 && g.pct(60) {
+			c := cur.Cmds[g.r.Intn(len(cur.Cmds))]
+			last = c.Name[:g.r.Intn(len(c.Name)+1)]
+		} else if len(p.Root.Cmds) > 0 && g.pct(40) {
+			c := p.Root.Cmds[g.r.Intn(len(p.Root.Cmds))]
+			last = c.Name[:g.r.Intn(len(c.Name)+1)]
+		}
 	case r < 30 && len(vis) > 0:
 		o := vis[g.r.Intn(len(vis))]
 		ks := optKeys(o)
